@@ -21,19 +21,23 @@ mcvars == <<g, shape>>
 
 FooDefs(cs) == {D(o, "foo", FALSE, v, "Integer", "def", FALSE) : o \in cs, v \in {"public", "private", "protected"}}
                \cup {D(o, "foo", TRUE, "public", "Integer", h, FALSE) : o \in cs, h \in {"self", "sclass"}}
+               \* `class << self ; private ; def foo` - written FIRST in the class body: the section must end with the block
+               \cup {D(o, "foo", TRUE, "private", "Integer", "sclass", FALSE) : o \in cs}
 BarDefs(cs) == {{}} \cup {{D(o, "bar", FALSE, v, "String", "def", FALSE)} : o \in cs, v \in {"public", "private"}}
 
 MCInit ==
     \E sh \in Shapes :
       LET cs == RangeOf(sh.cls) IN
       \E foo \in FooDefs(cs), bar \in BarDefs(cs), incAt \in cs \cup {""}, extAt \in cs \cup {""},
-         ini \in {-1, 0, 1}, reopen \in BOOLEAN :
+         ini \in {-1, 0, 1}, reopen \in BOOLEAN, modhid \in BOOLEAN :
         /\ shape = sh.cls
         /\ g = [sup  |-> sh.sup,
                 inc  |-> [c \in K |-> IF c = incAt THEN {"M1"} ELSE {}],
                 ext  |-> [c \in K |-> IF c = extAt THEN {"M1"} ELSE {}],
                 init |-> [c \in K |-> IF c = "K1" THEN ini ELSE -1],
                 defs |-> {foo} \cup bar \cup {D("M1", "mix", FALSE, "public", "Float", "def", FALSE)}
+                         \* the module starts with `class << self ; private ; def hid` before its public `mix`
+                         \cup (IF modhid THEN {D("M1", "hid", TRUE, "private", "Integer", "sclass", FALSE)} ELSE {})
                          \cup (IF reopen THEN {D(foo.owner, "baz", FALSE, "public", "Symbol", "def", TRUE)} ELSE {})]
 
 MCNext == UNCHANGED mcvars
